@@ -1,7 +1,10 @@
 """C12: W7 (the schema of a type describes the bytes its writer emits) and W10 (recursion guards name the right type)."""
+import json
+import os
+
 from .. import rx, wire
 from ..core import ob, rule, where
-from ..ir import calls, callee, peel
+from ..ir import calls, callee, children, peel
 from ..schema_tree import SchemaReader, Undecided
 from ..shape import Analyzer
 from .wire_rules import impl_pairs, SCHEMA_TYPES
@@ -167,3 +170,74 @@ def w7d(facts, tier):
     for cause, ws in sorted(agg.items()):
         yield ob(["C12", "C05"], "W7d", cause, "violation", where(ws[0][3]), f"{MSG[cause]}; {len(ws)} corpus definition(s), e.g. {ws[0][0]} at version "
                  f"{ws[0][1]}: writer emits [{ws[0][2]}]", witnesses=[w[0] for w in ws[:20]])
+
+
+# ---------------------------------------------------------------------------------------------
+# W10b: recursion-guard levels are part of the stored schema format
+
+GUARD_SPEC = os.path.join(os.path.dirname(os.path.dirname(os.path.dirname(os.path.abspath(__file__)))), "spec", "recursion_guards.json")
+
+
+def guard_levels(facts):
+    """per library WithSchema impl: the sorted list of guard depths (number of enclosing possible_recursion closures, through local
+    helper functions) under which it asks for an inner type's schema"""
+    def depths(f, base, seen):
+        out = []
+
+        def visit(x, d):
+            if not isinstance(x, dict):
+                return
+            if x.get("k") == "Call":
+                c = callee(x) or ""
+                if c.endswith("WithSchemaContext::possible_recursion"):
+                    for a in x.get("args", []):
+                        cl = peel(a)
+                        if cl.get("k") == "Closure" and facts.fns.get(cl["id"]):
+                            visit(facts.fns[cl["id"]]["body"], d + 1)
+                        else:
+                            visit(a, d)
+                    return
+                if c == "savefile::WithSchema::schema":
+                    out.append(d)
+                else:
+                    t = (x.get("res") or {}).get("fn") or x.get("fn")
+                    h = facts.fns.get(t)
+                    if h is not None and h["crate"] == "savefile" and not (h.get("impl") or {}).get("trait") and h["id"] not in seen \
+                            and h.get("body") and any("WithSchemaContext" in (p.get("ty") or "") for p in h.get("params", [])):
+                        out.extend(depths(h, d, seen | {h["id"]}))
+            if x.get("k") == "Closure" and facts.fns.get(x["id"]):
+                visit(facts.fns[x["id"]]["body"], d)
+                return
+            for y in children(x):
+                visit(y, d)
+        visit(f["body"], base)
+        return out
+    res = {}
+    for ty, (f, ts) in schema_fns(facts, "savefile").items():
+        res[ty] = sorted(depths(f, 0, {f["id"]}))
+    return res
+
+
+@rule("W10b", ["C03", "C12"], floor=60, doc="recursion-guard levels are part of the stored schema format (Schema::Recursion(n) counts guarded levels): every "
+      "library WithSchema impl asks for its inner types' schemas under exactly the number of possible_recursion levels frozen in "
+      "spec/recursion_guards.json - one level more or less renumbers the markers of recursive types, and schemas stored by other builds no longer match")
+def w10b(facts, tier):
+    if not os.path.exists(GUARD_SPEC):
+        yield ob(["C03", "C12"], "W10b", "spec", "violation", "", "spec/recursion_guards.json missing")
+        return
+    spec = json.load(open(GUARD_SPEC))
+    cur = guard_levels(facts)
+    fns = schema_fns(facts, "savefile")
+    for ty in sorted(set(spec) | set(cur)):
+        w = where(fns[ty][0]) if ty in fns else ""
+        if ty not in cur:
+            yield ob(["C03", "C12"], "W10b", ty, "violation", w, f"{ty}: WithSchema impl frozen in the spec is gone")
+        elif ty not in spec:
+            yield ob(["C03", "C12"], "W10b", ty, "undecided", w, f"{ty}: WithSchema impl not in the frozen spec (new type): guard levels {cur[ty]} not judged")
+        elif spec[ty] != cur[ty]:
+            yield ob(["C03", "C12"], "W10b", ty, "violation", w,
+                     f"{ty}: inner schemas are computed under guard levels {cur[ty]}, the format has {spec[ty]}: Schema::Recursion depths of recursive "
+                     f"types containing this type change, so a schema stored by another build of the library (an older file) no longer "
+                     f"matches the one computed in memory")
+        else:
+            yield ob(["C03", "C12"], "W10b", ty, "pass", w, f"guard levels {cur[ty]} as frozen", nontrivial=bool(cur[ty]))
